@@ -187,6 +187,15 @@ def f_sequence(case):
         GL, gk, gl = _embed_gen(sc)
         m = Bk.mask_arg(step['qubits'], N)
         nt = nt or _nt(sc, cl, ck, GL, gk)
+        if len(step['qubits']) < N and (len(step['gen']) + len(case['ops']) + case.get('salt', 0)) % 3 == 0:
+            # the caller first forgets the mask: a generator of the wrong size is rejected, and the rejected call must leave the operands as they were
+            try:
+                obj.rotate_by(gen_obj(step))
+                accepted = True
+            except BaseException:
+                accepted = False
+            check(not accepted, 'rotate_by accepted a %d-qubit generator on a %d-qubit list without a mask' % (len(step['qubits']), N), 'wrong-size-accepted')
+            C.expect_list(Bk.read_list(obj), (cl, ck), 'operand after a rejected rotate_by (generator of the wrong size, no mask)', 'rejected-call-changed-operand')
         obj.rotate_by(gen_obj(step), m)
         cl, ck = ref.rotate_rule(cl, ck, GL, gk)
         C.expect_list(Bk.read_list(obj), (cl, ck), 'after step %s' % step, 'seq')
